@@ -71,6 +71,14 @@ def main():
                     badax = vlib.axioms_ok(ax.get(n, ['<missing>']))
                     ctx.axioms[n] = ax.get(n, ['<missing>'])
                     ctx.oblige(f'axioms of {n} within the allow-list', not badax, badax)
+        # 4b independent re-check of the compiled theorems (thorough tier only; it takes a minute or more)
+        if ok and tier == 'thorough' and os.environ.get('VERIF_NO_COQCHK') != '1':
+            cok, cax, clog = vlib.coqchk(pid)
+            ctx.extra['coqchk_axioms'] = cax
+            ctx.oblige(f'coqchk -o re-checks Props/{pid}.vo and everything it depends on', cok, clog)
+            if cok:
+                badax = vlib.axioms_ok(cax)
+                ctx.oblige('coqchk: axioms of the whole dependency cone within the allow-list', not badax, badax)
         # 5 harness
         try:
             h.run(ctx, model_ok=ok)
